@@ -91,7 +91,17 @@ func checksSort() {
 		`forall i int, j int :: 0 <= i && i < j && j < len(x) ==> x[i] <= x[j]`,
 		`forall i int :: 0 <= i && i < len(x) ==> (exists j int :: 0 <= j && j < len(x) && old(x)[j] == x[i])`,
 		`forall j int :: 0 <= j && j < len(x) ==> (exists i int :: 0 <= i && i < len(x) && old(x)[j] == x[i])`}
-	cStrings := contract{"std/sort.spec", "sort", "Strings", 3, sortClauses}
+	// sort.Strings additionally names the permutation: sortedFrom(old(x), i) is the input position of result element i,
+	// sortedTo(old(x), .) its inverse. Both are uninterpreted functions of the input VALUE: witnesses exist iff the result is
+	// a permutation of the input (equal multisets) and sorting is a function of the input value (an equal input sorts
+	// to an equal result, so that one pair of witnesses serves every call with that value).
+	stringsClauses := []string{
+		sortClauses[0],
+		`forall i int :: 0 <= i && i < len(x) ==> 0 <= sortedFrom(old(x), i) && sortedFrom(old(x), i) < len(x) && x[i] == old(x)[sortedFrom(old(x), i)] && sortedTo(old(x), sortedFrom(old(x), i)) == i`,
+		`forall j int :: 0 <= j && j < len(x) ==> 0 <= sortedTo(old(x), j) && sortedTo(old(x), j) < len(x) && sortedFrom(old(x), sortedTo(old(x), j)) == j`,
+		sortClauses[1], sortClauses[2], sortClauses[3]}
+	cStrings := contract{"std/sort.spec", "sort", "Strings", 7, stringsClauses}.withNote(
+		"sortedFrom / sortedTo are uninterpreted: the two witness clauses are checked as the existence of a bijection (the result is a permutation of the input, multiset equality) plus determinism in the input value")
 	cSlicesSort := contract{"std/sort.spec", "slices", "Sort", 10, sortClauses}
 	sdom := []string{"a", "b", "ab", ""}
 	idom := []int{-1, 0, 1, 7}
@@ -99,13 +109,32 @@ func checksSort() {
 	bound := func(d string) string {
 		return fmt.Sprintf("all slices over %s up to length %d, and 300 pseudo-random slices of length 13..72 (beyond the insertion-sort threshold)", d, k)
 	}
-	check("sort.Strings: same length, ordered, same set of elements", []contract{cStrings}, bound(`{"a" "b" "ab" ""}`), func(t *T) {
+	check("sort.Strings: same length, ordered, same set of elements, a permutation of the input (witness clauses)", []contract{cStrings}, bound(`{"a" "b" "ab" ""}`), func(t *T) {
 		one := func(in []string) {
 			t.Case()
 			old := slices.Clone(in)
 			x := slices.Clone(in)
 			sort.Strings(x)
 			sortedClauses(t, sortClauses, "sort.Strings", old, x)
+			// witness clauses: a bijection between result and input positions that preserves the elements
+			cnt := map[string]int{}
+			for _, s := range old {
+				cnt[s]++
+			}
+			for _, s := range x {
+				cnt[s]--
+			}
+			perm := len(x) == len(old)
+			for _, v := range cnt {
+				if v != 0 {
+					perm = false
+				}
+			}
+			t.Check(perm, stringsClauses[1], "sort.Strings(%q)=%q is not a permutation of the input: no sortedFrom exists", old, x)
+			t.Check(perm, stringsClauses[2], "sort.Strings(%q)=%q is not a permutation of the input: no inverse sortedTo exists", old, x)
+			y := slices.Clone(old) // an equal value in other memory
+			sort.Strings(y)
+			t.Check(slices.Equal(x, y), stringsClauses[1], "sort.Strings(%q) gives %q and %q for equal inputs: sortedFrom cannot be a function of the input value", old, x, y)
 		}
 		seqs(sdom, k, one)
 		longInputs(sdom, 300, one)
@@ -134,7 +163,7 @@ func checksSort() {
 
 	// ---- sort.Search (C03_nodelete.spec), f an arbitrary deterministic predicate
 	cSearch := contract{"C03_nodelete.spec", "sort", "Search", 241, []string{
-		`0 <= r && r <= n`,
+		`n >= 0 ==> 0 <= r && r <= n`,
 		`r < n ==> f(r)`,
 		`r > 0 ==> !f(r - 1)`,
 		`(forall i int, j int :: 0 <= i && i <= j && j < n && f(i) ==> f(j)) ==> (forall i int :: 0 <= i && i < r ==> !f(i))`}}
@@ -145,7 +174,7 @@ func checksSort() {
 		r := sort.Search(n, f)
 		d := fmt.Sprintf("Search(%d, f=%v)=%d", n, v, r)
 		e := cSearch.ensures
-		t.Check(0 <= r && r <= n, e[0], "%s", d)
+		t.Check(!(n >= 0) || (0 <= r && r <= n), e[0], "%s", d)
 		t.Check(!(r < n) || f(r), e[1], "%s", d)
 		t.Check(!(r > 0) || !f(r-1), e[2], "%s", d)
 		mono := true
@@ -164,11 +193,11 @@ func checksSort() {
 		}
 		t.Check(!mono || none, e[3], "%s", d)
 	}
-	check("sort.Search with an arbitrary (also non-monotone) predicate, restricted to n >= 0", []contract{cSearch},
+	check("sort.Search with an arbitrary (also non-monotone) predicate, n >= 0", []contract{cSearch},
 		fmt.Sprintf("all n in [0, %d] and all 2^n predicates on [0, n)", sn), func(t *T) {
 			seqs([]bool{false, true}, sn, func(v []bool) { searchOne(t, len(v), v) })
 		})
-	check("sort.Search as declared (no precondition on n: negative n included)", []contract{cSearch},
+	check("sort.Search with negative n included (the range clause is conditional on n >= 0)", []contract{cSearch},
 		fmt.Sprintf("all n in [-3, %d] and all 2^max(n,0) predicates", min(sn, 8)), func(t *T) {
 			for n := -3; n < 0; n++ {
 				searchOne(t, n, nil)
@@ -179,12 +208,49 @@ func checksSort() {
 	// ---- sort.Slice / sort.SliceStable: engine intrinsic (gocv exec_call.go sortSliceIntrinsic), no spec-file contract:
 	//   len and nil-ness unchanged; x is a permutation of old(x) (bijection on the indexes);
 	//   forall a < b < len(x): the comparator, evaluated on (b, a) over the FINAL slice, does not return true.
-	intr := contract{file: "@gocv/internal/gocv/exec_call.go sortSliceIntrinsic (sort.Slice, sort.SliceStable)"}
+	intr := contract{file: "@gocv/internal/gocv/exec_call.go sortSliceIntrinsic + sortComparatorObligations (sort.Slice, sort.SliceStable)"}
+	// The engine first emits the obligations #sort-comparator[N.irreflexive / transitive / ties-transitive] for the literal
+	// comparator, for arbitrary indices i, j, k into the slice AS IT IS WHEN sort.Slice IS CALLED. A comparator that fails
+	// one of them is rejected, nothing is assumed about it. The check: whenever the three obligations hold (evaluated here
+	// over all index triples of the input slice), the three assumptions hold on the result.
 	type cmp struct {
-		name string
-		less func(a, b string) bool
+		name    string
+		less    func(x []string, i, j int) bool
+		byValue bool // less(x, i, j) depends on x[i], x[j] only: the obligations over indexes are those over the distinct values
 	}
-	sliceOne := func(t *T, c cmp, in []string) {
+	obligations := func(c cmp, x []string) bool {
+		if c.byValue {
+			var d []string
+			for _, v := range x {
+				if !slices.Contains(d, v) {
+					d = append(d, v)
+				}
+			}
+			x = d
+		}
+		n := len(x)
+		for i := 0; i < n; i++ {
+			if c.less(x, i, i) {
+				return false // irreflexive
+			}
+			for j := 0; j < n; j++ {
+				for k := 0; k < n; k++ {
+					lij, lji, ljk, lkj, lik, lki := c.less(x, i, j), c.less(x, j, i), c.less(x, j, k), c.less(x, k, j), c.less(x, i, k), c.less(x, k, i)
+					if lij && ljk && !lik {
+						return false // transitive
+					}
+					if !lij && !lji && !ljk && !lkj && (lik || lki) {
+						return false // ties-transitive
+					}
+				}
+			}
+		}
+		return true
+	}
+	sliceOne := func(t *T, c cmp, in []string) (checked bool) {
+		if !obligations(c, in) {
+			return false // rejected by #sort-comparator: no assumption is made
+		}
 		for _, stable := range []bool{false, true} {
 			t.Case()
 			old := slices.Clone(in)
@@ -192,13 +258,12 @@ func checksSort() {
 			what := "sort.Slice"
 			if stable {
 				what = "sort.SliceStable"
-				sort.SliceStable(x, func(i, j int) bool { return c.less(x[i], x[j]) })
+				sort.SliceStable(x, func(i, j int) bool { return c.less(x, i, j) })
 			} else {
-				sort.Slice(x, func(i, j int) bool { return c.less(x[i], x[j]) })
+				sort.Slice(x, func(i, j int) bool { return c.less(x, i, j) })
 			}
-			d := fmt.Sprintf("%s(%q, %s)=%q", what, old, c.name, x)
+			d := fmt.Sprintf("%s(%q, %s)=%q (the comparator passes the three #sort-comparator obligations on this input)", what, old, c.name, x)
 			t.Check(len(x) == len(old) && (x == nil) == (old == nil), "len and nil-ness unchanged", "%s", d)
-			// permutation: equal multisets
 			cnt := map[string]int{}
 			for _, s := range old {
 				cnt[s]++
@@ -216,35 +281,53 @@ func checksSort() {
 			ord := true
 			for a := 0; a < len(x); a++ {
 				for b := a + 1; b < len(x); b++ {
-					if c.less(x[b], x[a]) {
+					if c.less(x, b, a) {
 						ord = false
 					}
 				}
 			}
 			t.Check(ord, "forall a < b: !less(b, a) on the final slice", "%s", d)
 		}
+		return true
 	}
-	swo := []cmp{
-		{"x[i] < x[j]", func(a, b string) bool { return a < b }},
-		{"x[i] > x[j]", func(a, b string) bool { return a > b }},
-		{"len(x[i]) < len(x[j])", func(a, b string) bool { return len(a) < len(b) }},
-		{"x[i][:1] < x[j][:1] (key with ties)", func(a, b string) bool { return substr(a, 0, 1) < substr(b, 0, 1) }},
+	byVal := func(name string, f func(a, b string) bool) cmp {
+		return cmp{name, func(x []string, i, j int) bool { return f(x[i], x[j]) }, true}
 	}
-	check("sort.Slice / sort.SliceStable with comparators that are strict weak orders (total keys, partial keys with ties, descending)",
-		[]contract{intr}, fmt.Sprintf(`nil, all slices over {"a" "b" "ab" ""} up to length %d, 100 pseudo-random slices of length 13..72; 4 comparators`, min(k, 6)), func(t *T) {
-			for _, c := range swo {
+	named := []cmp{
+		byVal("x[i] < x[j]", func(a, b string) bool { return a < b }),
+		byVal("x[i] > x[j]", func(a, b string) bool { return a > b }),
+		byVal("len(x[i]) < len(x[j])", func(a, b string) bool { return len(a) < len(b) }),
+		byVal("x[i][:1] < x[j][:1] (key with ties)", func(a, b string) bool { return substr(a, 0, 1) < substr(b, 0, 1) }),
+		byVal("x[i] <= x[j] (not irreflexive: rejected whenever the slice is non-empty)", func(a, b string) bool { return a <= b }),
+		byVal("x[i] != x[j] (not transitive: rejected whenever two values differ)", func(a, b string) bool { return a != b }),
+	}
+	check("sort.Slice / sort.SliceStable, named comparators on the VALUES (total keys, partial keys with ties, descending, and two that are no strict weak orders): whenever the #sort-comparator obligations hold the result is an ordered permutation",
+		[]contract{intr}, fmt.Sprintf(`nil, all slices over {"a" "b" "ab" ""} up to length %d, 100 pseudo-random slices of length 13..72; 6 comparators`, min(k, 6)), func(t *T) {
+			for _, c := range named {
 				sliceOne(t, c, nil)
 				seqs(sdom, min(k, 6), func(in []string) { sliceOne(t, c, in) })
 				longInputs(sdom, 100, func(in []string) { sliceOne(t, c, in) })
 			}
 		})
-	check("sort.Slice / sort.SliceStable as modelled (ANY literal comparator; here x[i] <= x[j] and x[i] != x[j], which are not strict weak orders)",
-		[]contract{intr}, fmt.Sprintf(`all slices over {"a" "b" "ab" ""} up to length %d, 2 comparators`, min(k, 5)), func(t *T) {
+	rk := min(k, 5)
+	check("sort.Slice / sort.SliceStable, EVERY comparator that is a relation on the values: all 512 binary relations on three values; whenever the #sort-comparator obligations hold on the input the result is an ordered permutation",
+		[]contract{intr}, fmt.Sprintf(`all 512 relations R on {"a" "b" "c"} as comparator R(x[i], x[j]), all slices over the three values up to length %d (cases: the pairs that pass the obligations)`, rk), func(t *T) {
+			vals := []string{"a", "b", "c"}
+			idx := map[string]int{"a": 0, "b": 1, "c": 2}
+			for rel := 0; rel < 512; rel++ {
+				rel := rel
+				c := cmp{fmt.Sprintf("relation #%03x on (x[i], x[j])", rel), func(x []string, i, j int) bool { return rel>>(3*idx[x[i]]+idx[x[j]])&1 == 1 }, true}
+				seqs(vals, rk, func(in []string) { sliceOne(t, c, in) })
+			}
+		})
+	check("sort.Slice / sort.SliceStable, comparators that depend on the INDEXES themselves (not only on x[i], x[j]); the obligations are stated over indexes, so such comparators can pass them",
+		[]contract{intr}, fmt.Sprintf(`all slices over {"a" "b" "c"} up to length %d; comparators i < j, i > j, and x[i] < x[j] || (x[i] == x[j] && i < j)`, rk), func(t *T) {
 			for _, c := range []cmp{
-				{"x[i] <= x[j]", func(a, b string) bool { return a <= b }},
-				{"x[i] != x[j]", func(a, b string) bool { return a != b }},
+				{"i < j", func(x []string, i, j int) bool { return i < j }, false},
+				{"i > j", func(x []string, i, j int) bool { return i > j }, false},
+				{"x[i] < x[j] || (x[i] == x[j] && i < j)", func(x []string, i, j int) bool { return x[i] < x[j] || (x[i] == x[j] && i < j) }, false},
 			} {
-				seqs(sdom, min(k, 5), func(in []string) { sliceOne(t, c, in) })
+				seqs([]string{"a", "b", "c"}, rk, func(in []string) { sliceOne(t, c, in) })
 			}
 		})
 
